@@ -58,7 +58,9 @@ class C01(Prop):
             "length-octet perturbations at every position, trailing bytes, uniform random strings; each decoded from an "
             "exact-capacity slice and as a prefix of a 0xAA-filled and a pseudo-random-filled larger array "
             "(3 operations per input). distinct = distinct (decoder, input bytes) pairs; all are non-trivial "
-            "(each reaches the real decoder).")
+            "(each reaches the real decoder). Every input is decoded three times (exact capacity, two different tails "
+            "behind its length); the third decode runs with a log target installed (util.Logger, as the README shows), "
+            "so what a decoder says about a malformed frame is formatted, not skipped.")
     extra_streams = [("sock", "C01live", "knxdrv", {"quick": 300, "thorough": 3000})]
     assumptions = ["the live UDP/TCP receivers get the malformed-frame classes of this property through the socket harness "
                    "(stream C01live: header-only frames of every service, truncations with an honest and with a lying header, "
@@ -163,7 +165,8 @@ class C11(Prop):
     rule = ("frames: L_Data req/con/ind over all 2^16 pairs of control octets (strided in the quick tier), all 16 APCI x "
             "16 sequence x numbered x data/control combinations, payload and info lengths 1..254, corner addresses; each "
             "packed by the real encoder, compared with an independent bit-writer rendering of the specified layout, and the "
-            "layout decoded back. helpers: the five flag functions over all 256 inputs, hop round trip under 4 surrounding "
+            "layout decoded back; every value 0..255 of the transport-control octet in hand-made L_Data.ind layouts (also those "
+            "the encoder never writes: sequence bits in an unnumbered unit), decoded by the code and by the model. helpers: the five flag functions over all 256 inputs, hop round trip under 4 surrounding "
             "octets, the four address constructors over 12^3 corner triples plus random ones; compared with the definitions "
             "regenerated from the source (gendrv) and with arithmetic written from the specification. distinct = distinct "
             "frames / helper calls.")
@@ -344,7 +347,11 @@ class C03(Proto):
             "socket failure on a resend, ack one tick before the timeout), UDP and TCP, 4 (resend, timeout) settings. "
             "Trace = every frame with its virtual time + every Send result, compared exactly with the model's; monitors: one "
             "request in flight, identical periodic retransmissions, consecutive numbers, success only by a fresh matching ack, "
-            "deadline. distinct = scripts.")
+            "deadline. REAL time (stream C03rt): 1..8 goroutines sending at once; a reconnect during a Send; and `rsrt`: a Send "
+            "that had to wait for another Send's late acknowledgement and whose own request is then lost twice - its first "
+            "repetition comes no earlier than one resend interval after its FIRST TRANSMISSION (the wait for the other Send "
+            "is not part of the interval). The scripts of the virtual- and real-time streams run with a log target "
+            "installed (util.Logger), so the client's log calls are executed. distinct = scripts.")
     technique = "Lean 4 proof (invariant of a timed transition system of requestTunnel/handleTunnelRes over all label sequences) + exact trace correspondence of the real client under testing/synctest"
     level_text = ("Theorems over every label sequence (any inputs/timer expiries, any ack stream): a pending Send blocks any other "
                   "request; retransmissions are identical, one resend interval apart, strictly before the deadline; at the deadline "
@@ -380,6 +387,7 @@ class C05(Proto):
     id = "C05"
     lean_module = "Props.C05"
     streams = [("C05", None, 0.5), ("C03", "knxdrv", 0.25), ("C04", "knxdrv", 0.25), ("C03rt", None, 0.05), ("C17rt", None, 0.05)]
+    extra_streams = [("sock", "C05live", None, {"quick": 60, "thorough": 1500})]
     budgets = {"quick": 300, "thorough": 3000}
     rule = ("composed-system walks under virtual time: the real client against an in-harness rule-following gateway over a "
             "network that loses (0..40 %), duplicates (0..30 %, up to 3 copies), delays (up to 2 resend intervals + 5 ms, so "
@@ -387,7 +395,11 @@ class C05(Proto):
             "direction and walks of 280 + 270 telegrams across the wrap at 256, three (resend, timeout) settings; one directed "
             "walk (request delivered, all its acknowledgements lost, number reused). The monitor IS the property: bus log vs "
             "successful Sends, Inbound vs gateway-acknowledged. Plus the C03 / C04 script streams, compared exactly with the "
-            "model (the tie of the client model whose sender/receiver rules the abstract proof is about). distinct = walks/scripts.")
+            "model (the tie of the client model whose sender/receiver rules the abstract proof is about). REAL sockets (stream "
+            "C05live): knx.NewTunnel over loopback UDP / TCP in the data, bus-monitor and raw layer against a small gateway "
+            "that sends 2..8 telegrams, each only after the previous one was acknowledged, while the application is not "
+            "reading; the application then receives exactly those telegrams, in order, with the content they had when they "
+            "were acknowledged (the socket reads every datagram into one buffer). distinct = walks/scripts.")
     technique = "Lean 4 proof (inductive invariant of the abstract stop-and-wait system with lossy/duplicating/reordering channels, unbounded telegram count, modulus 256) + witness by kernel evaluation + composed walks of the real client as oracle"
     level_text = ("Theorem (_partial: histories without an abandoned exchange): for EVERY interleaving of transmissions, "
                   "retransmissions, losses, duplicated and reordered deliveries, the exchanges completed successfully are 0..C-1 in "
